@@ -278,7 +278,7 @@ for _k, _v in EXTRA_TEXT4.items():
     CLAIMS[_k]["text"] += _v
 EXTRA_TEXT5 = {
     "C01": " Round 5: S01 maps carry Z values on some or all traces (one map in five); item ZCoordinates is tied to C01.",
-    "C02": " Round 5: the S02 lattice streams give a third of their frames one label for all rows (and a third offset labels); item ValidationUtils (determine_trace_candidates) is tied to C02.",
+    "C02": " Round 5: the S02 lattice streams give a third of their frames one label for all rows (and a third offset labels); item ValidationUtils (determine_trace_candidates) is tied to C02. Round 6: half of the frames carry Z values; item ZCoordinates is tied to C02.",
     "C03": " Round 5: S03 plants ends that coincide with the end of a trace they also cross elsewhere; items IntersectionFilter / GeneralNodes are tied to C03.",
     "C04": " Round 5: S04-valid-length also runs maps 1/4096 the size with threshold 1e-6 and Z values on most traces; ZCoordinates checks that remove_z_coordinates is the lossless WKB round trip.",
     "C06": " Round 5: stream S06-crop-order (valid maps whose area cuts traces, through the two routes that crop internally, vs the exact arrangement).",
@@ -287,11 +287,11 @@ EXTRA_TEXT5 = {
     "C10": " Round 5: item UnitVectorCompare + C10_generated_direction_compare (closed form of compare_unit_vector_orientation: a dot product close to 1 is 'same direction' whatever its exact value); S10-sharp has exactly straight interior vertices on 13 lattice directions.",
     "C11": " Round 5: C11_underlap_label_independent_of_earlier_rows (the label the stateful under/overlap validator reports never depends on what earlier rows left on the class); S11-validation-orbits has fixed frames with both snap kinds.",
     "C12": " Round 5: S12-relations analyses every frame once before (no truncation, other sets); C12_network_sets_from_a_copy (regenerated Network.__post_init__).",
-    "C13": " Round 5: S13's pool has an eleventh frame (a trace lying on another with its free end in the snap error band: the STACKED label of the stateful validator).",
+    "C13": " Round 5: S13's pool has an eleventh frame (a trace lying on another with its free end in the snap error band: the STACKED label of the stateful validator). Stream S13-chosen (every pool frame x 5 chosen validator subsets and the default: validate, validate the output again, re-run; the fills of the object's node cache observed and compared with the regenerated cache model) found the genuine defect F26 (node caches from the unfixed traces), repaired in /repo; the cache theorems now hold for every validator choice. Round 6: stream S13-same-frame (one caller-owned frame validated twice by new objects, allow_fix (True, False) / (False, True) / (True, True), exhaustive over the pool, each result against a fresh identical frame, the caller's frame unchanged).",
     "C15": " Round 5: S15-network uses one-character set names in every other history (the null label '-1' is longer).",
     "C16": " Round 5: S16-multiarea adds EMPTY polygon rows to 30% of the area layers.",
     "C17": " Round 5: S17 also calls the crop with each of its two flags flipped, on the base input and on one with a multi-part trace, cold then warm in both orders.",
-    "C18": " Round 5: item SampleCell regenerates populate_sample_cell with its nested helpers; C18_generated_sample_cell / C18_generated_sample_cell_resolved (what a cell reports without / with per-cell extraction); stream S18-resolve (per-cell topology mode on a trace-only Network vs the Network with topology: no exception, identical tables) exercised the known F17 (TypeError for a circle without traces), repaired in /repo.",
+    "C18": " Round 5: item SampleCell regenerates populate_sample_cell with its nested helpers; C18_generated_sample_cell / C18_generated_sample_cell_resolved (what a cell reports without / with per-cell extraction); stream S18-resolve (per-cell topology mode on a trace-only Network vs the Network with topology: no exception, identical tables) exercised the known F17 (TypeError for a circle without traces), repaired in /repo. Round 6: S18-grid also uses a width just short of dividing the extent (quotient 4.00003).",
     "C19": " Round 5: S19-network also leaves branch / node outputs to their default paths, with network names containing a dot, a blank or a suffix; S19-tracevalidate inputs have a text column with missing values.",
     "C20": " Round 5: S20-circles judges radius and containment against the circle the sampler was GIVEN (all samplers of a run share one name).",
 }
